@@ -253,7 +253,7 @@ def check_property(pid, units, tier="quick", seed=0, extra=None):
             seen_clause[key] += 1
             continue   # one VIOLATION line per violated clause (first configuration); the others are counted
         rp, reproduced = RP.write_replay(pid, r, label, ob, s, replay_dir, known=False, want_status=True)
-        solver_sat = any(l[0] in ("z3-prove", "z3-prove-2", "cvc5-prove") and l[1] == "sat" for l in (s.get("log") or []))
+        solver_sat = any(l[0] in ("z3-prove", "z3-prove-2", "z3-prove-3", "cvc5-prove") and l[1] == "sat" for l in (s.get("log") or []))
         if not (reproduced or solver_sat or full in baseline):
             # only a quantifier-free weakening is satisfiable, nothing replays, and the obligation is not one that is known to
             # discharge on the unchanged tree: that is an undischarged obligation, not a violation
@@ -268,7 +268,7 @@ def check_property(pid, units, tier="quick", seed=0, extra=None):
 
     wall = time.time() - t0
     ev = {
-        "property_id": pid, "tier": tier, "seed": seed, "level": "proof",
+        "property_id": pid, "tier": tier, "seed": seed, "level": (extra or {}).get("level", "proof"),
         "coverage": {
             "obligations": len(real) - len(known_hits), "discharged": proved, "known_finding_obligations_refuted": len(known_hits),
             "checker_cmd": f"./check {pid} --tier {tier}",
